@@ -189,7 +189,12 @@ func (m *Machine) visitInstr(fr *frame, instr ssa.Instruction) continuation {
 		idx = m.toIndex(idx, instr.Index.Type())
 		m.rtPanic(fr, Not(Cmp(OpUlt, idx, BV(64, uint64(len(elems))))), "index out of range")
 		if idx.IsConst() {
-			fr.env[instr] = &elems[idx.Val]
+			p := &elems[idx.Val]
+			if t, ok := (*p).(*Term); ok && t.W == 8 {
+				// remember the extent so that unsafe.String/unsafe.Slice on &b[i] work
+				m.sliceOf[p] = elems[idx.Val:cap(elems)]
+			}
+			fr.env[instr] = p
 		} else if scalarElems(elems) {
 			fr.env[instr] = &SymElem{Elems: elems, Idx: idx}
 		} else {
